@@ -573,3 +573,57 @@ def c10(ck):
             seen.add(key)
             ck.report(key, "data race between two accesses in jig/lisp code", {"case": {"kind": "race", "report": text}})
     ck.extra["race_reports_in_repo_code"] = len(races)
+
+
+@check("C11")
+def c11(ck):
+    import os, glob, json
+    ck.rule = ("model: EnvLock.tla (scope tree, one RWMutex per scope, lookups climbing with nested read locks, single-lock "
+               "writers) checked by TLC for deadlock freedom and reads-see-latest-set (the shared-mutex variant deadlocks). "
+               "real code: every set of 2 (quick) / 3 (thorough) programs out of a 16-template pool (local scopes, closures, "
+               "macros incl. cond -> ->> and or, gensym, memoize, atoms, try/catch/finally, tail loops, own global names) "
+               "run simultaneously on ONE environment preloaded with the libraries, R times; each program must give exactly "
+               "its solo outcome as computed by Def.tla (generated symbols up to renaming); the per-scope operation log "
+               "recorded by the hook is validated by TraceEnv.tla (a scope created by one evaluation is never touched by "
+               "another); the same under the race detector")
+    q = ck.quick
+    for sh, expect_deadlock in (("FALSE", False), ("TRUE", True)):
+        c = "SPECIFICATION Spec\nCONSTANT Sharing = %s\nCONSTANT Readers = {11, 12}\nCONSTANT Writers = {1, 2}\n" \
+            "INVARIANT ReadsSeeLatestSet\nINVARIANT NoTornRead\nCHECK_DEADLOCK TRUE\n" % sh
+        r = ck.tlc("EnvLock", c, timeout=600, deadlock=True, want_cases=False)
+        if not expect_deadlock and r.exit != 0:
+            raise InfraError("EnvLock: TLC exit %s\n%s" % (r.exit, tail(r.stdout_path)))
+        if expect_deadlock:
+            ck.extra["shared_mutex_variant_on_model"] = "deadlock" if r.deadlock else "exit %s" % r.exit
+    r = ck.tlc("GenC11", cfg(constants={"SetSize": 2 if q else 3}), timeout=1500)
+    ck.tlc_ok(r, "GenC11")
+    trace = os.path.join(ck.scratch, "env.ndjson")
+    ck.replay(r.cases, args=["-repeat", "2" if q else "4"], timeout=3000)
+    # scope-isolation log on a sample (the log is large), validated by TraceEnv.tla
+    sample = r.cases[:: max(1, len(r.cases) // (40 if q else 300))]
+    ck.harness(["replay", "-workers", "1", "-repeat", "1", "-envtrace", trace], sample, timeout=3000)
+    rej, t = validate_trace(ck, "TraceEnv", trace, timeout=1800)
+    rows = [json.loads(l) for l in open(trace)]
+    ck.traces_validated += sum(1 for r_ in rows if r_["ev"] == "begin")
+    for line in rej[:20]:
+        idx, _, reason = line.partition(" ")
+        ck.report("isolation:foreign-scope-touched", reason, {"case": {"kind": "env-trace", "events": rows[max(0, int(idx) - 20):int(idx) + 1]}})
+    def mut(rows_):
+        for i, r_ in enumerate(rows_):
+            if r_["ev"] == "op" and r_["pre"] == 0 and i > 50:
+                r_["g"] = r_["g"] % 3 + 1
+                return True
+        return False
+    ck.extra["selftest_corrupted_trace_rejections"] = corrupt_selftest(ck, "TraceEnv", trace, mut)
+    # race detector
+    racelog = os.path.join(ck.scratch, "race")
+    ck.harness(["replay", "-repeat", "2"], r.cases[:: (3 if q else 1)], race=True, timeout=3000,
+               env={"GORACE": "log_path=%s halt_on_error=0 exitcode=0" % racelog})
+    races = parse_race_reports(glob.glob(racelog + "*"))
+    seen = set()
+    for key, text in races:
+        if key not in seen:
+            seen.add(key)
+            ck.report(key, "data race between two accesses in jig/lisp code", {"case": {"kind": "race", "report": text}})
+    ck.extra["race_reports_in_repo_code"] = len(races)
+    ck.exhaustive = True
